@@ -49,6 +49,19 @@ CoinHours(coins, hours, uxtime, t) ==
            total == Add(hours, Div3600(cs))          \* = hours + floor(coins * secs / 3.6e9)
        IN Res(FitsU64(wcs) /\ FitsU64(ds) /\ FitsU64(cs) /\ FitsU64(total), total)
 
+\* the same with the failure kind the ledger rules distinguish: "ok", "add" (only the final addition of the earned
+\* hours to the initial hours does not fit - the documented legacy case), "mult" (an intermediate does not fit)
+CoinHoursK(coins, hours, uxtime, t) ==
+  IF Lt(t, uxtime) THEN [k |-> "ok", r |-> hours]
+  ELSE LET secs  == Sub(t, uxtime)
+           wcs   == Mul(secs, DivMillion(coins))
+           ds    == Mul(secs, ModMillion(coins))
+           cs    == Add(wcs, DivMillion(ds))
+           total == Add(hours, Div3600(cs))
+       IN IF ~(FitsU64(wcs) /\ FitsU64(ds) /\ FitsU64(cs)) THEN [k |-> "mult", r |-> Zero]
+          ELSE IF ~FitsU64(total) THEN [k |-> "add", r |-> Zero]
+          ELSE [k |-> "ok", r |-> total]
+
 \* ---- C29 paging over a list of n items ----
 TotalPagesIs(tp, n, size) == IsCeilDiv(tp, n, size)
 PageStart(size, page) == Mul(size, Sub(page, One))
